@@ -304,8 +304,12 @@ def open_save(src_pkg, form, tmp):
     return out.getvalue()
 
 
-def compare(inp, outp, what="C01"):
+def compare(inp, outp, what="C01", drop_dangling=False):
     reach, relmap, dangling = inp.reachable()
+    if drop_dangling:
+        # relationships whose target part is absent are documented as dropped on load (C16)
+        relmap = {s: [r for r in rs if r.mode != "Internal" or r.resolved in inp.members]
+                  for s, rs in relmap.items()}
     if outp.dups:
         raise Violation(what + ":duplicate-member", "duplicate zip members %s" % outp.dups)
     expected = {"/[Content_Types].xml", "/_rels/.rels"}
